@@ -243,6 +243,8 @@ M("c05-twin-catchup-by-keys", "C05", "benign", (S, "        self.watcher_all_ser
 # ---------------------------------------------------------------- round B: whole-region refactorings written by independent
 # maintainers-for-a-day (benign/<id>/refactor.diff + refactor.json); every check must stay silent on each of them
 ALL = ",".join(f"C{i:02d}" for i in range(1, 21))
+import os as _os
+_ROOT = _os.path.dirname(_os.path.dirname(_os.path.dirname(_os.path.abspath(__file__))))
 REFACTORINGS = {
     "R01": "C01,C18,C20,C03", "R02": "C02,C20,C03,C11,C12,C19", "R03": "C02,C20,C03", "R04": "C02,C20,C03",
     "R05": "C19,C12,C13,C05", "R06": "C19,C14", "R07": "C03,C04,C07,C08,C01,C10", "R08": "C14,C04,C06",
@@ -262,6 +264,11 @@ for _r, _props in REFACTORINGS.items():
     # walrus, filter / map, next(.., default), asyncio spellings)
     CORPUS.append({"name": f"refactoring-B4-{_r}", "props": ALL.split(","), "kind": "benign", "edits": [],
                    "diff": f"benign/B4-{_r}/refactor.diff", "base": f"benign/B3-{_r}/refactor.diff"})
+    # fifth pass, stacked on B3+B4 (round B5: structure - helper classes by composition, parameter objects, pipelines with
+    # context objects, functions moved between module / class / value class, iterator classes)
+    if _os.path.exists(_os.path.join(_ROOT, "benign", f"B5-{_r}", "refactor.diff")):
+        CORPUS.append({"name": f"refactoring-B5-{_r}", "props": ALL.split(","), "kind": "benign", "edits": [],
+                       "diff": f"benign/B5-{_r}/refactor.diff", "base": f"benign/B4-{_r}/stacked.diff"})
 
 # ---------------------------------------------------------------- the independently seeded breaking changes (seeded/<id>/patch.diff):
 # the target property's check must report each of them
